@@ -6,7 +6,10 @@ export CARGO_NET_OFFLINE=true
 mkdir -p .cache work evidence replays
 python3 tools/translate.py || echo "setup: translator refused (a check will report it)"
 (cd lean && lake build Complgen cgdriver) || echo "setup: lake build incomplete (a check will report it)"
-cp /repo/Cargo.lock harness/Cargo.lock
-(cd /repo && CARGO_TARGET_DIR=/verif/.cache/repo-target cargo build --offline --features verif)
-(cd harness && CARGO_TARGET_DIR=/verif/.cache/vh-target cargo build --offline)
+V=$(pwd)
+python3 -c "
+import sys; sys.path.insert(0, '$V')
+from vlib import core
+ok, log = core.impl_build()
+print('setup: cargo builds', 'ok' if ok else 'FAILED (a check will report it)'); print(log[-1500:])"
 echo "setup: done"
